@@ -72,6 +72,9 @@ func C05(t *rapid.T, big bool) *world.Scenario {
 		case 2:
 			rp.Header = append(rp.Header, H("Connection", "keep-alive, x-hop ,X-Other-Hop"), H("X-Hop", "hop$S;"), H("X-Other-Hop", "hop$S;"))
 		}
+	} else if Pct(t, "e2e-named-like-hop", 40) {
+		// the same names as ordinary end-to-end fields (not nominated by Connection here)
+		rp.Header = append(rp.Header, H("X-Hop", "e2e$S"), H("X-Other-Hop", "e2e$S"))
 	}
 	if rp.Shape == "chunked" && Pct(t, "trailer", 50) {
 		rp.Trailer = [][2]string{H("X-Trailer", "t$S")}
